@@ -26,6 +26,11 @@ func init() {
 }
 
 func runC06(c *Ctx) {
+	// a solicitation from :: is only recognised (and answered by a rate-limited multicast RA) when the listener
+	// hands the source over without its zone: netip.Addr.IsUnspecified is false for "::%eth0"
+	if l := c.P.Method("internal/corerad", "listener", "Listen"); l != nil {
+		checkListenDelivery(c, "R-C06-6", l, c.pathsO("R-C06-6", l, an.PathOpts{EmitCut: true}))
+	}
 	scope := c.P.TypesPkg("internal/corerad").Types.Scope()
 	if k := scope.Lookup("minDelayBetweenRAs"); k != nil {
 		c.R.Check(constVal(k) == 3000000000, "R-C06-1", "corerad.minDelayBetweenRAs", "", c.pos(k.Pos()), fmt.Sprintf("minDelayBetweenRAs = %dns", constVal(k)), "3s (RFC 4861 MIN_DELAY_BETWEEN_RAS)", "rate-limit constant differs from the RFC")
